@@ -2,10 +2,10 @@
 from . import l1, l1cases
 
 SPEC = {
-    "lean": ["SnowModel.Props.C01", "SnowModel.Props.L1Bridge"],
+    "lean": ["SnowModel.Props.C01", "SnowModel.Props.C01L2", "SnowModel.Props.L1Bridge"],
     "pins": ["Runtime", "ObjectRows", "ObjectModel"],
     "technique": "Lean 4 invariant proof over arbitrary op sequences of the id/slot/registry machine (L1) + AST pins (object_names order, IdManager.__setstate__ arithmetic, generate_id call order) + op-by-op trace correspondence with the real interpreter",
-    "level_text": "Machine-checked proof that for every operation sequence (hence every recipe, iteration count and continuation split) the ids issued per table are exactly 1..lastUsed without repetition, that a reserved id never survives a successful iteration boundary, and that a continuation resumes at lastUsed+1; the machine is tied to the code by replaying, op for op with state digests, traces captured from real runs of generated recipes x iteration counts x continuation compositions, and by a direct density oracle on the emitted rows.",
+    "level_text": "Machine-checked proof that for every operation sequence (hence every recipe, iteration count and continuation split) the ids issued per table are exactly 1..lastUsed without repetition, that a reserved id never survives a successful iteration boundary, and that a continuation resumes at lastUsed+1; the same invariant is carried through the L2 reference interpreter (Props/C01L2: for every recipe of the modelled language without a field named `id`, every iteration count and continuation split, the stored and emitted row ids of each table are exactly 1..n); the machine is tied to the code by replaying, op for op with state digests, traces captured from real runs of generated recipes x iteration counts x continuation compositions, and by a direct density oracle on the emitted rows.",
     "level_note": "Trusted: Lean kernel, py2lean, the trace wrappers (monkey-patched from the harness). The L1 machine abstracts field evaluation away (ops are what the interpreter asks of the id/slot/registry layer); that the interpreter only touches that layer through the wrapped calls is checked by the state digests, not proved.",
     "assumptions": ["nicknames_and_tables is a dict (unique keys)", "a continuation file is written only by a run that completed"],
 }
